@@ -313,7 +313,17 @@ class Fold:
     def ev_binop(self, n, env):
         op = n["op"]
         if op in ("&&", "||"):
-            return (op, self.ev(n["lhs"], env), self.ev(n["rhs"], env))
+            # short circuit: whatever the right operand does (calls, stores recorded as events) happens only when the left one lets it be evaluated
+            l_ = self.ev(n["lhs"], env)
+            if l_ is sp.true or l_ is sp.false or isinstance(l_, bool):
+                r_ = self.ev(n["rhs"], env)
+                return (op, l_, r_)
+            self.guards.append((l_, op == "&&", n))
+            try:
+                r_ = self.ev(n["rhs"], env)
+            finally:
+                self.guards.pop()
+            return (op, l_, r_)
         a, b = self.ev(n["lhs"], env), self.ev(n["rhs"], env)
         if op in ("<", "<=", ">", ">=", "==", "!="):
             return self.compare(op, a, b)
@@ -409,9 +419,9 @@ class Fold:
         if isinstance(b, Matrix) and all(getattr(i, "is_Integer", False) for i in idx):
             ii = [int(i) for i in idx]
             if len(ii) == 1:
-                if b.shape[1] == 1 or b.shape[0] == 1:
+                if (b.shape[1] == 1 or b.shape[0] == 1) and 0 <= ii[0] < len(b):
                     return b[ii[0]]
-            elif len(ii) == 2:
+            elif len(ii) == 2 and 0 <= ii[0] < b.shape[0] and 0 <= ii[1] < b.shape[1]:
                 return b[ii[0], ii[1]]
         return F("at")(self.scalarize(b), *[self.scalarize(i) for i in idx])
 
